@@ -13,10 +13,41 @@ template <class L> std::string layFull() {
   if (std::is_same_v<L, mdx::layout_left_padded<md::dynamic_extent>>) return "lpadD"; if (std::is_same_v<L, mdx::layout_right_padded<4>>) return "rpad4";
   return "other";
 }
+// an accessor whose reference is a VALUE (read-only view): element_type const T, reference T
+template <class T> struct ValAcc {
+  using offset_policy = ValAcc; using element_type = const T; using reference = T; using data_handle_type = const T*;
+  constexpr ValAcc() noexcept = default;
+  constexpr reference access(data_handle_type p, size_t i) const noexcept { return p[i]; }
+  constexpr data_handle_type offset(data_handle_type p, size_t i) const noexcept { return p + i; }
+};
+// a conforming user layout none of whose mapping observers is noexcept (the layout mapping requirements do not demand it)
+struct NeLayout {
+  template <class E> struct mapping {
+    using extents_type = E; using index_type = typename E::index_type; using size_type = typename E::size_type; using rank_type = typename E::rank_type; using layout_type = NeLayout;
+    md::layout_right::mapping<E> inner;
+    constexpr mapping() = default;
+    constexpr mapping(const E& e) : inner(e) {}
+    constexpr const E& extents() const { return inner.extents(); }
+    constexpr index_type required_span_size() const { return inner.required_span_size(); }
+    template <class... I> constexpr index_type operator()(I... i) const { return inner(i...); }
+    static constexpr bool is_always_unique() { return true; } static constexpr bool is_always_exhaustive() { return true; } static constexpr bool is_always_strided() { return true; }
+    constexpr bool is_unique() const { return true; } constexpr bool is_exhaustive() const { return true; } constexpr bool is_strided() const { return true; }
+    constexpr index_type stride(rank_type r) const { return inner.stride(r); }
+    template <class F> friend constexpr bool operator==(const mapping& a, const mapping<F>& b) { return a.inner == b.inner; }
+  };
+};
+// the noexcept facts the specification states for mdspan itself, whatever the layout's own exception specifications
+template <class V> std::string noexceptsMds() {
+  std::string s = "nem=";
+  s += num(noexcept(std::declval<const V&>().size())) + num(noexcept(std::declval<const V&>().empty())) + num(noexcept(std::declval<const V&>().extents())) + num(noexcept(std::declval<const V&>().data_handle()));
+  s += num(noexcept(std::declval<const V&>().mapping())) + num(noexcept(std::declval<const V&>().accessor())) + num(noexcept(V::rank())) + num(noexcept(V::rank_dynamic())) + num(noexcept(V::static_extent(0)));
+  s += num(noexcept(std::declval<const V&>().extent(0))) + num(noexcept(swap(std::declval<V&>(), std::declval<V&>())));
+  return s;
+}
 template <class V> std::string descMds() {
   using T = typename V::element_type; using A = typename V::accessor_type;
   std::string e = std::is_same_v<T, int> ? "int" : std::is_same_v<T, const int> ? "cint" : std::is_same_v<T, double> ? "double" : "other";
-  std::string a = std::is_same_v<A, md::default_accessor<T>> ? "def" : std::is_same_v<A, StAcc<T>> ? "st" : "other";
+  std::string a = std::is_same_v<A, md::default_accessor<T>> ? "def" : std::is_same_v<A, StAcc<T>> ? "st" : std::is_same_v<A, PxAcc<T>> ? "px" : std::is_same_v<A, ValAcc<std::remove_const_t<T>>> ? "val" : "other";
   return "elem=" + e + " " + descExt<typename V::extents_type>() + " lay=" + layFull<typename V::layout_type>() + " acc=" + a;
 }
 // member types of an mdspan instantiation and its parts
